@@ -53,6 +53,8 @@ Succ(c, d, s) ==
     \* call syntax with several integer indices
     [] c = "view" /\ s = "callidx2" /\ d >= 2 -> IF d > 2 THEN [cat |-> "view", dim |-> d - 2] ELSE [cat |-> "element", dim |-> 0]
     [] c = "view" /\ s = "callidx3" /\ d >= 3 -> IF d > 3 THEN [cat |-> "view", dim |-> d - 3] ELSE [cat |-> "element", dim |-> 0]
+    [] c = "view" /\ s = "callidx4" /\ d >= 4 -> IF d > 4 THEN [cat |-> "view", dim |-> d - 4] ELSE [cat |-> "element", dim |-> 0]
+    [] c = "view" /\ s = "callidx5" /\ d >= 5 -> IF d > 5 THEN [cat |-> "view", dim |-> d - 5] ELSE [cat |-> "element", dim |-> 0]
     [] c = "view" /\ s = "callmix" /\ d >= 2 -> [cat |-> "view", dim |-> d - 1]
     [] c = "view" /\ s \in ViewKeepD -> [cat |-> "view", dim |-> d]
     [] c = "view" /\ s \in (ViewNeeds2KeepD \cup ViewNeeds2KeepDMore) /\ d >= 2 -> [cat |-> "view", dim |-> d]
@@ -71,7 +73,7 @@ Succ(c, d, s) ==
     [] c = "cursor" /\ s = "cidx" -> IF d > 1 THEN [cat |-> "cursor", dim |-> d - 1] ELSE [cat |-> "element", dim |-> 0]
     [] OTHER -> [cat |-> "none", dim |-> 0]
 
-AllSteps == {"idx", "callidx", "callidx2", "callidx3", "callmix", "front", "back"} \cup ViewKeepD \cup ViewNeeds2KeepD \cup ViewNeeds2KeepDMore \cup ViewNeeds2LessD \cup ViewMoreD
+AllSteps == {"idx", "callidx", "callidx2", "callidx3", "callidx4", "callidx5", "callmix", "front", "back"} \cup ViewKeepD \cup ViewNeeds2KeepD \cup ViewNeeds2KeepDMore \cup ViewNeeds2LessD \cup ViewMoreD
             \cup {"arrow"}   \* *(it.operator->()): the item reached through the iterator's arrow
             \cup {"as_const", "transformed", "broadcasted", "begin", "end", "cbegin", "cend", "elements", "home",
                   "deref", "itidx", "itplus", "ebegin", "eidx", "efront", "eback", "ederef", "cidx"}
